@@ -143,7 +143,8 @@ def gen_program(rnd):
         files.append(apm.SrcFile(f"f{i}.mac", stmts))
     plant = None
     if rnd.random() < 0.3:
-        plant = rnd.choice(["invisible", "dup", "dup-export", "local-out-of-scope", "own-shadows-export", "dup-export-include", "local-across-units"])
+        plant = rnd.choice(["invisible", "dup", "dup-export", "local-out-of-scope", "own-shadows-export", "dup-export-include", "local-across-units",
+                            "own-shadows-include-export"])
         f = rnd.choice(files)
         if plant == "invisible":
             others = [n for n in PRIVATE_POOL if not any(n in [l[0] for l in s.labels] or getattr(s, "name", None) == n for s in f.stmts)]
@@ -178,6 +179,17 @@ def gen_program(rnd):
             f.stmts[0:0] = [apm.extern("dupexp"), apm.include(inc)]
             f.stmts.append(apm.label("dupexp"))
             f.stmts.append(apm.data(".word", apm.num(3)))
+        elif plant == "own-shadows-include-export":
+            # the exporter is an INCLUDED file (also when only one file is linked); the includer uses the name after the include and
+            # defines its own further down: the own definition is the one meant
+            inc = f"incshd{len(aux)}.mac"
+            how = rnd.choice(["const", "label"])
+            aux[inc] = apm.SrcFile(inc, [apm.assign("shdinc", apm.num(uniq.next() & 0o77777), extern=True)] if how == "const" else
+                                   [apm.label("shdinc", extern=True), apm.data(".word", apm.num(uniq.next() & 0o177777))])
+            use = rnd.choice([[apm.insn("mov", ("imm", ("sym", "shdinc")), ("reg", 0))], [apm.data(".byte", ("bin", "&", ("sym", "shdinc"), apm.num(0o377))), apm.simple(".even")],
+                              [apm.assign("viainc", ("bin", "+", ("sym", "shdinc"), apm.num(1))), apm.data(".word", ("sym", "viainc"))], [apm.data(".word", ("sym", "shdinc"))]])
+            f.stmts[0:0] = [apm.include(inc)] + use
+            f.stmts.append(apm.assign("shdinc", apm.num(uniq.next() & 0o77777)))
         elif plant == "local-across-units":
             # a reference at the head of a later unit to a local label that only the previous unit's tail scope defines
             if len(files) >= 2:
